@@ -90,12 +90,15 @@ fn case<R: Ent>(rng: &mut StdRng, t: &mut Tracer, st: &mut Stats, cid: usize, ma
     }
     // ---------------- direct-sum decomposition: a permuted block-diagonal matrix plus zero rows / columns
     let nb = rng.gen_range(0..4usize);
-    let mut shapes: Vec<(usize, usize)> = (0..nb).map(|_| (rng.gen_range(1..=3), rng.gen_range(1..=3))).collect();
+    let bmax = if rng.gen_bool(0.5) { 3 } else { 6 };
+    let mut shapes: Vec<(usize, usize)> = (0..nb).map(|_| (rng.gen_range(1..=bmax), rng.gen_range(1..=bmax))).collect();
     let (zr, zc) = (rng.gen_range(0..3usize), rng.gen_range(0..3usize));
     let (mm, nn) = (shapes.iter().map(|s| s.0).sum::<usize>() + zr, shapes.iter().map(|s| s.1).sum::<usize>() + zc);
     let mut d = vec![vec![<R as num_traits::Zero>::zero(); nn]; mm];
     let (mut i0, mut j0) = (0, 0);
-    for (bm, bn) in shapes.drain(..) { for i in 0..bm { for j in 0..bn { if rng.gen_bool(0.6) { let mut x = R::rnd(rng, 3); if num_traits::Zero::is_zero(&x) { x = R::rnd_unit(rng); } d[i0 + i][j0 + j] = x; } } } i0 += bm; j0 += bn; }
+    // block density: dense blocks, or sparse ones whose column-intersection graph is a long path / tree (columns meet pairwise in single rows)
+    let bdens = if rng.gen_bool(0.5) { 0.6 } else { 0.25 };
+    for (bm, bn) in shapes.drain(..) { for i in 0..bm { for j in 0..bn { if rng.gen_bool(bdens) { let mut x = R::rnd(rng, 3); if num_traits::Zero::is_zero(&x) { x = R::rnd_unit(rng); } d[i0 + i][j0 + j] = x; } } } i0 += bm; j0 += bn; }
     let (pp, qq) = (rand_perm(rng, mm), rand_perm(rng, nn));
     let mut dperm = vec![vec![<R as num_traits::Zero>::zero(); nn]; mm];
     for i in 0..mm { for j in 0..nn { dperm[pp[i]][qq[j]] = d[i][j].clone(); } }
@@ -115,7 +118,24 @@ fn case<R: Ent>(rng: &mut StdRng, t: &mut Tracer, st: &mut Stats, cid: usize, ma
 /// spec -> impl: TLC-enumerated unit-triangular matrices (upper as given, lower by transposition) with a right-hand side
 fn enumerated(t: &mut Tracer, st: &mut Stats, cid: &mut usize, cases: &[Value]) {
     let p2 = pool(2);
+    let p1 = pool(1); let p16 = pool(16);
     for c in cases {
+        if let Some(pat) = c.get("pat") {
+            // a 0/1 pattern for the direct-sum routine
+            *cid += 1; st.cases += 1;
+            let d: Vec<Vec<i64>> = pat.as_array().unwrap().iter().map(|r| r.as_array().unwrap().iter().map(|x| x.as_i64().unwrap()).collect()).collect();
+            let (mm, nn) = (d.len(), d[0].len());
+            let am = sp_from_dense(&d, mm, nn, &|_, _| false);
+            let pattern = |x: &SpMat<i64>| -> Value { let (m, n) = x.shape(); let mut z = vec![vec![0u8; n]; m]; for (i, j, _) in x.iter() { z[i][j] = 1; } json!({"m": m, "n": n, "a": z}) };
+            for (nt, p) in [(1usize, &p1), (16usize, &p16)] {
+                emit::<i64>(t, st, "dirsum", json!({"a": sp_json(&am), "z": pattern(&am), "threads": nt, "explicit_zeros": false}), |e| {
+                    let (pp, qq, blocks) = p.install(|| dir_sum_decomp(am.clone()));
+                    e["p"] = json!((0..mm).map(|i| pp.view().at(i)).collect::<Vec<_>>()); e["q"] = json!((0..nn).map(|j| qq.view().at(j)).collect::<Vec<_>>());
+                    e["blocks"] = json!(blocks.iter().map(sp_json).collect::<Vec<_>>()); e["zblocks"] = json!(blocks.iter().map(|b| pattern(b)).collect::<Vec<_>>());
+                });
+            }
+            continue;
+        }
         *cid += 1; st.cases += 1;
         t.emit(&json!({"op": "newcase", "res": "ok", "ring": <i64 as Ent>::ring(), "case": *cid})); st.events += 1;
         let d: Vec<Vec<i64>> = c["a"].as_array().unwrap().iter().map(|r| r.as_array().unwrap().iter().map(|x| x.as_i64().unwrap()).collect()).collect();
@@ -146,7 +166,7 @@ pub fn record(a: &Args) {
     let mut cid = 0;
     let en: Vec<Value> = a.inp.as_ref().map(|p| read_ndjson(p)).unwrap_or_default();
     let step = if a.thorough() { 1 } else { 9 };
-    let picked: Vec<Value> = en.into_iter().step_by(step).collect();
+    let picked: Vec<Value> = en.into_iter().enumerate().filter(|(i, c)| c.get("pat").is_some() || i % step == 0).map(|(_, c)| c).collect();
     enumerated(&mut t, &mut st, &mut cid, &picked);
     macro_rules! run { ($t:ty, $salt:expr) => {{ let mut rng = a.rng($salt); for _ in 0..ncases { cid += 1; case::<$t>(&mut rng, &mut t, &mut st, cid, maxn); } }} }
     run!(i64, 1); run!(Ratio<i64>, 2); run!(FF<5>, 3); run!(GaussInt<i64>, 4);
